@@ -70,3 +70,13 @@ def bounds_violation(x):
     if name == "EncodedArray":
         return bounds_violation(x.raw()) if hasattr(x, "raw") else None
     return None
+
+
+def chrom_names(col):
+    """Names held in a chromosome column (StringArray, EncodedRaggedArray or StringEncoding-encoded EncodedArray)."""
+    enc = getattr(col, "encoding", None)
+    if enc is not None and type(enc).__name__ == "StringEncoding":
+        labels = [str(x) for x in enc.get_labels()]
+        raw = np.atleast_1d(np.asarray(col.raw()))
+        return [labels[i] for i in raw.tolist()]
+    return [str(x) for x in col.tolist()]
